@@ -34,7 +34,9 @@ P, PID = c01.P, c01.PID
 MODEL = ('postgres', 'mysql')
 RENDER = ('oracle', 'cockroach')
 INTERNAL = (AssertionError, KeyError, AttributeError, IndexError, NameError, UnboundLocalError, RecursionError)
-MIN_SHARE = {'postgres': 60, 'mysql': 50}
+# measured on the unchanged tree (quick): postgres 69 %, mysql 63 % of the queries Pony translates are decided by the model and judged;
+# what is left is undecided for the reasons listed in coverage.dialects.<d>.undecided_by_reason (string collation above all)
+MIN_SHARE = {'postgres': 65, 'mysql': 58}
 
 # ------------------------------------------------------------------------------------------------------------
 _STATE = {}
@@ -164,7 +166,7 @@ def check_expr(sub, st, E, deep, hashes):
     ev.memo_ids = (id(E),)
     n = 0
     for pos, q, fes in c01.placements(E, deep):
-        check_query(sub, st, pos, q, E, prods, hashes, ev); n += 1
+        check_query(sub, st, pos, q, E, prods, hashes, ev, render=not deep); n += 1
     return n
 
 def decided_fragment(E):
@@ -177,6 +179,7 @@ def decided_fragment(E):
 _EXPRS = {}
 def work(task):
     depth, idxs = task
+    if depth == 'extra': return work_extra(idxs)
     st = state()
     sub = core.Sub()
     hashes = set()
@@ -300,8 +303,8 @@ def run(ctx):
     ctx.cov['expressions_depth2_decided_fragment'] = len(_EXPRS.get(2, ()))
     hashes = set()
     workers = min(ctx.nworkers, 16)
+    tasks.append(('extra', 0))
     results = ctx.pmap(work, ctx.shuffled(tasks), workers=workers)
-    results.append(work_extra(0))
     for d in results:
         hashes.update(d.pop('hashes'))
         core.absorb(ctx, d)
@@ -314,12 +317,12 @@ def run(ctx):
         # undecided by design: never judged, and every query with that production that Pony translated was undecided for a static
         # (expression-tree) reason; anything else that is never judged fails the guard below
         bydesign = [p_ for p_ in never if c.get('bydesign:%s:%s' % (d, p_)) and not c.get('other:%s:%s' % (d, p_))]
-        per[d] = dict(queries=q, refused_by_pony=ref, undecided=und, judged=c.get(d + ':judged', 0), agreed_with_python=c.get(d + ':agreed', 0),
+        per[d] = dict(sqlite_only_disagreements=c.get('sqlite:sqlite_only_disagreement', 0)) if d == 'sqlite' else {}
+        per[d].update(queries=q, refused_by_pony=ref, undecided=und, judged=c.get(d + ':judged', 0), agreed_with_python=c.get(d + ':agreed', 0),
                       disagreed_with_python=c.get(d + ':disagreed_with_python', 0), refused_by_dialect_model=c.get(d + ':refused_by_dialect_model', 0),
                       refused_by_dialect_model_where_python_raises_too=c.get(d + ':refused_by_dialect_model_where_python_raises_too', 0),
                       not_executable=c.get(d + ':not_executable', 0), row_comparisons=c.get(d + ':row_comparisons', 0),
                       dialect_specific_disagreements=c.get(d + ':dialect_specific_disagreement', 0),
-                      sqlite_only_disagreements=c.get(d + ':sqlite_only_disagreement', 0),
                       same_signature_as_sqlite=c.get(d + ':same_signature_as_sqlite(C01)', 0),
                       decided_share_percent=int(100.0 * c.get(d + ':judged', 0) / max(1, q - ref)),
                       undecided_by_reason={k.split(':', 2)[2]: v for k, v in sorted(c.items()) if k.startswith(d + ':undecided:')},
@@ -366,6 +369,7 @@ def replay(ctx, case):
         f = f[0]
         outs = {e: J.run_on(st['eng'][e], st, f) for e in ('sqlite', d)}
         for e, o in outs.items(): print(e, o.kind, o.why, o.rows if o.rows is None else o.rows[:8], o.sql and o.sql[0].replace('\n', ' '))
+        if outs[d].kind in ('broken', 'dialect_refused'): return outs['sqlite'].kind != 'answered'
         if f.expect is None: return outs[d].kind != 'answered' or outs['sqlite'].kind != 'answered' or [tuple(qx.canon(v) for v in r) for r in outs[d].rows] == [tuple(qx.canon(v) for v in r) for r in outs['sqlite'].rows]
         e = f.base.expected(st['data'])
         rows = sorted((tuple(qx.canon(v) for v in r.vals) for r in e.rows), key=lambda r: r[0][2] if isinstance(r[0], tuple) else r[0])
